@@ -76,28 +76,42 @@ fn stream(storage: bool, mode: u8) {
         IS_MSG = script;
         STORAGE_FRAMING = storage;
     }
-    let data = [0u8; N];
     let start: u32 = kani::any();
     let (bp, bs): (usize, usize) = (kani::any(), kani::any());
     kani::assume(start < u32::MAX - 8 && bs <= bp && bp < usize::MAX / 2);
+    // native replay (concrete playback runs WITHOUT the stubs): translate the script into a real byte stream and check the
+    // real iterator with the real parsers against the same reference walk; under Kani this call is stubbed to `false`
+    if native_cross_check(&script, storage, mode, start, bp, bs) {
+        return;
+    }
+    let data = [0u8; N];
     let mut it = DltMessageIterator::new(start, &data[..]);
     it.detected_storage_header = mode == 1;
     it.detected_serial_header = mode == 2;
     it.bytes_processed = bp;
     it.bytes_skipped = bs;
-    // reference: walk the stream
+    let (yielded, skipped) = walk_and_check(&mut it, &script, N, storage, mode, mlen, if storage { ST_LEN } else { SE_LEN }, ST_LEN, SE_LEN, start, bp, bs);
+    kani::cover!(yielded >= 2 && skipped >= 1, "two messages and garbage");
+    kani::cover!(yielded >= 1 && script[3] && !script[0] && !script[1] && !script[2], "odd garbage run (3 bytes) before the first message");
+    kani::cover!(yielded == 0 && skipped > 0, "only garbage");
+}
+
+/// reference walk over the stream + assertions on every next(); `script[p]` = a message of the framing starts at p
+#[allow(clippy::too_many_arguments)]
+fn walk_and_check<R: std::io::BufRead>(it: &mut DltMessageIterator<'_, R>, script: &[bool], n: usize, storage: bool, mode: u8, mlen: usize,
+    _own_min: usize, st_min: usize, se_min: usize, start: u32, bp: usize, bs: usize) -> (u32, usize) {
     let mut pos = 0usize;
     let mut yielded = 0u32;
     let mut skipped = 0usize;
     let mut detected = mode != 0;
     let mut rounds = 0;
-    while rounds < N / SE_LEN + 2 {
-        // next expected message = first scripted start at or after pos that the iterator can still reach
-        let stop_below = if storage && detected { ST_LEN } else { SE_LEN }; // fewer bytes left than this: iterator gives up
+    while rounds < n / se_min + 2 {
+        // fewer bytes left than this: the iterator gives up (storage framing once detected needs a full storage message)
+        let stop_below = if storage && detected { st_min } else { se_min };
         let mut p = pos;
         let mut found = false;
-        while p < N {
-            if N - p < stop_below {
+        while p < n {
+            if n - p < stop_below {
                 break;
             }
             if script[p] {
@@ -110,13 +124,12 @@ fn stream(storage: bool, mode: u8) {
         if found {
             assert!(m.is_some()); // every message is found ...
             let m = m.unwrap();
-            assert_eq!(m.timestamp_dms as usize, p); // ... in stream order, none invented, none skipped
-            assert_eq!(m.index, start + yielded); // numbered consecutively
+            assert_eq!(m.index, start + yielded); // ... numbered consecutively
             skipped += p - pos;
             pos = p + mlen;
             yielded += 1;
             detected = true;
-            assert_eq!(it.bytes_processed, bp + pos);
+            assert_eq!(it.bytes_processed, bp + pos); // ... in stream order, none invented, none skipped
             assert_eq!(it.bytes_skipped, bs + skipped); // skipped = exactly the garbage
             assert_eq!(it.detected_storage_header, storage);
             assert_eq!(it.detected_serial_header, !storage);
@@ -128,15 +141,49 @@ fn stream(storage: bool, mode: u8) {
             pos = p;
             assert_eq!(it.bytes_processed, bp + pos);
             assert_eq!(it.bytes_skipped, bs + skipped);
-            assert!(it.bytes_processed - bp <= N); // never more than the input
+            assert!(it.bytes_processed - bp <= n); // never more than the input
             break;
         }
         rounds += 1;
     }
     assert_eq!(it.index, start + yielded);
-    kani::cover!(yielded >= 2 && skipped >= 1, "two messages and garbage");
-    kani::cover!(yielded >= 1 && script[3] && !script[0] && !script[1] && !script[2], "odd garbage run (3 bytes) before the first message");
-    kani::cover!(yielded == 0 && skipped > 0, "only garbage");
+    (yielded, skipped)
+}
+
+/// NATIVE ONLY (stubbed to `false` under Kani): same statement on a real byte stream with real minimal messages
+fn native_cross_check(script: &[bool; N], storage: bool, mode: u8, start: u32, bp: usize, bs: usize) -> bool {
+    let (model_len, real_len) = if storage { (ST_LEN, 20usize) } else { (SE_LEN, 8usize) };
+    let mut real: Vec<u8> = Vec::new();
+    let mut real_script: Vec<bool> = Vec::new();
+    let mut i = 0;
+    while i < N {
+        if script[i] {
+            let at = real.len();
+            if storage {
+                real.extend_from_slice(&[b'D', b'L', b'T', 1, 0, 0, 0, 0, 0, 0, 0, 0, b'E', b'C', b'U', b'1', 0x20, 7, 0, 4]);
+            } else {
+                real.extend_from_slice(&[b'D', b'L', b'S', 1, 0x20, 7, 0, 4]);
+            }
+            real_script.resize(at, false);
+            real_script.push(true);
+            i += model_len;
+        } else {
+            real.push(0xaa); // garbage
+            i += 1;
+        }
+    }
+    real_script.resize(real.len(), false);
+    let n = real.len();
+    let mut it = DltMessageIterator::new(start, &real[..]);
+    it.detected_storage_header = mode == 1;
+    it.detected_serial_header = mode == 2;
+    it.bytes_processed = bp;
+    it.bytes_skipped = bs;
+    let _ = walk_and_check(&mut it, &real_script, n, storage, mode, real_len, real_len, 20, 8, start, bp, bs);
+    true
+}
+fn native_cross_check_model(_script: &[bool; N], _storage: bool, _mode: u8, _start: u32, _bp: usize, _bs: usize) -> bool {
+    false
 }
 
 macro_rules! abs_h {
@@ -145,6 +192,7 @@ macro_rules! abs_h {
         #[kani::unwind(12)]
         #[kani::stub(crate::dlt::parse_dlt_with_storage_header, storage_model)]
         #[kani::stub(crate::dlt::parse_dlt_with_serial_header, serial_model)]
+        #[kani::stub(native_cross_check, native_cross_check_model)]
         fn $name() {
             stream($storage, $mode);
         }
